@@ -85,6 +85,14 @@ CLAIMED = {
             "strings of length <= 4 over the bracket alphabets (118k / 1.2M judged texts).",
             "Input ending after a reader macro is not classified by the property (abstained).",
             "§8 C16"),
+    "C04": ("TLC enumerates the AST space (every special-form head x operand tuples over malformed-operand kinds, nesting "
+            "templates, every function bound in the environment x argument tuples) and Def.tla classifies each AST; "
+            "each is evaluated by the real EVAL bare and inside (try AST (catch e :caught)) under recover/watchdog, a "
+            "sample also as a future body in a child process",
+            "Exhaustive small-scope totality check: 73k ASTs quick (arity <= 2, 138 environment functions), ~1.2M thorough "
+            "(arity <= 3). Violation only on an observed panic / hang / process death / error escaping try.",
+            "Whether a malformed form is an error or a value is not judged; recursion depth bounded; trusts recover.",
+            "§8 C04"),
 }
 
 NOT_YET = "check not built yet in this round (planned in DESIGN.md §8; the specification module exists or is in progress)"
